@@ -1132,7 +1132,7 @@ class Executor(object):
                     out.append((c, tm.Exists([j], And(Le(intlit(0), j), Lt(j, SeqLen(seq)),
                                                       py_eq(SeqNth(seq, j), item)))))
                 else:
-                    raise Unsupported('membership in symbolic sequence at line %s' % node.lineno)
+                    self.unsupported_if_feasible(c, 'membership in symbolic sequence at line %s' % node.lineno)
         rest = st.assume(And(Not(Is('VTuple', container)), Not(Is('VList', container))))
         if rest is not None:
             r2 = rest.assume(Not(Is('VRef', container)))
